@@ -948,6 +948,10 @@ class Unit:
         if symbol in cls._by_symbol:
             raise ValueError(f"A unit with symbol {symbol} is already defined")
 
+        if symbol and " " in symbol:
+            # checked here, before the unit is constructed and interned
+            raise ValueError(f"{symbol!r} will not be parsable if it has spaces.")
+
         unit = cls(IdentityPrefix, {}, dimension, name, symbol)
         cls._base.add(unit)
         return unit
